@@ -119,7 +119,8 @@ func (v *DataModelView) DrawRelation(
 	relationshipMap map[string]map[string]RelationshipParam,
 ) {
 	entityTokens := strings.Split(viewParam.EntityName, ".")
-	encEntity := v.UniqueVarForAppName(entityTokens[len(entityTokens)-1])
+	entityApp := entityTokens[0]
+	encEntity := v.UniqueVarForAppName(entityTokens...)
 	v.StringBuilder.WriteString(fmt.Sprintf("%s \"%s\" as %s %s(%s,%s)%s {\n", classString, viewParam.EntityName,
 		encEntity, entityLessThanArrow, viewParam.EntityHeader, viewParam.EntityColor, entityGreaterThanArrow))
 
@@ -133,7 +134,11 @@ func (v *DataModelView) DrawRelation(
 		attrType := entity.AttrDefs[attrName]
 		var s string
 		if typeRef := attrType.GetTypeRef(); typeRef != nil {
-			targetEntity := v.UniqueVarForAppName(typeRef.GetRef().Path[0])
+			targetApp := entityApp
+			if typeRef.GetRef().GetAppname().GetPart() != nil {
+				targetApp = syslutil.JoinAppName(typeRef.GetRef().GetAppname())
+			}
+			targetEntity := v.UniqueVarForAppName(targetApp, typeRef.GetRef().Path[0])
 			s = fmt.Sprintf("+ %s : **%s.%s** <<FK>>\n",
 				attrName,
 				typeRef.GetRef().Path[0],
